@@ -16,6 +16,7 @@ import (
 	"github.com/coder/websocket"
 	"github.com/pancsta/asyncmachine-go/internal/utils"
 	am "github.com/pancsta/asyncmachine-go/pkg/machine"
+	"github.com/pancsta/asyncmachine-go/pkg/x/simhook"
 )
 
 const (
@@ -292,6 +293,12 @@ type client struct {
 }
 
 func newDbgClient(ctx context.Context, addr string, ws bool) (*client, error) {
+	if conn, err, ok := simhook.Dial(ctx, "tcp4", addr); ok {
+		if err != nil {
+			return nil, err
+		}
+		return &client{addr: addr, rpc: rpc.NewClient(conn)}, nil
+	}
 	var cli *rpc.Client
 	var err error
 	if ws {
